@@ -69,17 +69,28 @@ PROPS = {
                  "model tied by differential run (the sweep still tests the round trip on the implementation).",
  },
  "C18": {
-  "modules": ["OsmoVerif.Props.C18", "OsmoVerif.Props.TieGenMint"],
-  "min_theorems": 17,
+  "modules": ["OsmoVerif.Props.C18", "OsmoVerif.Props.C18Distr", "OsmoVerif.Props.TieGenMint"],
+  "min_theorems": 50,
   "fingerprints": [],
   "engines": [{"name": "mint", "kind": "app", "n": {"quick": 3000, "thorough": 60000}, "shards": {"quick": 4, "thorough": 16}}],
-  "rule": "histories = random valid parameter set (proportions summing to 1 with 1..18 decimals, reduction factor/period, start epoch, 0..4 weighted "
-          "receivers incl. empty addresses, drained vesting account) followed by consecutive epoch numbers fed to the real AfterEpochEnd; "
-          "an evaluation is one epoch call; non-trivial = epoch at/after the start epoch; distinct = distinct (history, epoch) op lines",
-  "trusted_base": ["cosmos-sdk bank/distribution keepers (modelled as ledgers)", "epoch hook wrapper's cache-context atomicity (reproduced by the engine)"],
-  "assumptions": ["pool-incentives AllocateAsset runs with an empty distribution table in the engine (everything forwarded to the community pool)"],
+  "rule": "histories = random valid parameter set (proportions summing to 1 with 1..18 decimals, each of the four proportions forced to 0 in a share of "
+          "the histories, reduction factor/period, start epoch, 0..4 weighted receivers incl. empty addresses, drained vesting account, provisions from 0 / "
+          "below one coin / exactly one coin up to the top of Dec) + a world (0-10 gauges created through real balancer pools and the incentives keeper, "
+          "perpetual and not) + a distribution table built by real Update/ReplacePoolIncentives proposals (ValidateBasic + gov handler in a cache context: "
+          "add, re-weight, remove with weight 0, remove all, gauge id 0, duplicate / unsorted / unknown / non-perpetual gauges, negative weights, empty) "
+          "interleaved with consecutive epoch numbers fed to the real mint epoch hook through MultiEpochHooks (panicCatchingEpochHook); "
+          "an evaluation is one epoch call or one proposal; non-trivial = epoch at/after the start epoch; distinct = distinct (history, op) lines",
+  "trusted_base": ["cosmos-sdk bank/distribution keepers (modelled as ledgers)", "x/incentives reduced to: which gauges exist / are perpetual, AddToGaugeRewards = bank send + gauge coins (observed per gauge)"],
+  "assumptions": ["the minted denom is distributable in x/incentives' sense (on mainnet it is the base denom; the test chain's `stake` gets a protorev route as the module's own tests do)",
+                  "FALSE on the code (witness theorems + known findings F46-F48): AllocateAsset forwards everything - truncation dust stays in the pool-incentives module account and is "
+                  "re-allocated next epoch; the weight ratio is rounded to 18 decimals before the multiplication; rounded ratios adding up to more than one make the hook fail for assets >= ~1e18",
+                  "a failing mint hook (panic or error, caught by the epochs hook wrapper) from the start epoch on is judged a failing input of the property (epoch:hook-failed:<class>)"],
   "explanation": "theorems: allocation sums to the minted amount with truncated proportions and an empty mint account, reported-supply delta formula, "
-                 "reduction exactly once per period over any number of consecutive epochs (induction), no mint before start; tied by differential run through the real keepers",
+                 "reduction exactly once per period over any number of consecutive epochs (induction), no mint before start; distribution table: cached TotalWeight = sum of the "
+                 "record weights and records strictly sorted after EVERY history of Update/ReplaceDistrRecords (induction), removal subtracts the weight, empty / emptied table -> "
+                 "community pool, conservation of AllocateAsset (gauges + community pool + what stays = asset), every minted coin accounted for over the whole epoch; "
+                 "x/mint arithmetic regenerated by the expression translator, operator lists of DistributeMintedCoin, distributeDeveloperRewards, AllocateAsset, "
+                 "Update/ReplaceDistrRecords, validateRecords pinned; tied by differential run through the real keepers",
  },
  "C16": {
   "modules": ["OsmoVerif.Props.C16"],
@@ -104,13 +115,15 @@ PROPS = {
  },
  "C17": {
   "modules": ["OsmoVerif.Props.C17"],
-  "min_theorems": 30,
+  "min_theorems": 33,
   "fingerprints": ["Epochs.*"],
   "engines": [{"name": "epochs", "kind": "pure", "n": {"quick": 24000, "thorough": 250000}, "shards": {"quick": 4, "thorough": 16}}],
   "rule": "histories of reset k (0-4 scripted subscribers) + 1-4 timers (durations 1ns..1 week, negative durations, zero start time, "
           "imported running timers, identifiers whose byte order differs from insertion order, malformed AddEpochInfo) + 200-260 blocks with "
           "non-decreasing times (regular, jitter, equal, exactly at / 1ns around the epoch end, around the start time, multi-epoch gaps) and a "
-          "random script of ok/err/panic(4 kinds)/out-of-gas(3 kinds) outcomes with 0-3 partial writes per hook invocation; a block is "
+          "random script of ok/err/panic(4 kinds)/out-of-gas(3 kinds) outcomes with 0-3 partial writes per hook invocation; EVERY hook invocation "
+          "first queries the epochs keeper through the context it is handed (GetEpochInfo of the signalling timer, AllEpochInfos, NumBlocksSinceEpochStart) "
+          "and logs what it saw; a block is "
           "non-trivial when at least one timer ticks; distinct = distinct op lines",
   "trusted_base": ["Go time.Time / time.Duration arithmetic is exact integer nanosecond arithmetic inside years 1..9999 (model: Int ns since time.Time{})",
                    "cosmos-sdk CacheContext/cachekv write-back and IAVL prefix iteration order (exercised in-process by the engine, not modelled below the "
@@ -118,13 +131,14 @@ PROPS = {
                    "a panicking BeginBlocker fails the block and nothing of it is committed (the engine realises this with a cache context that is written "
                    "back iff BeginBlocker returned; the model's stepBlock rolls back)"],
   "assumptions": ["int64 wrap of CurrentEpoch / block height (2^63 ticks) and time.Time overflow are not modelled",
-                  "subscribers touch only their own store (they do not call AddEpochInfo/DeleteEpochInfo or write the epochs store from inside a hook)",
+                  "subscribers write only their own store (they READ the epochs keeper inside every hook; they do not call AddEpochInfo/DeleteEpochInfo or write the epochs store from inside a hook)",
                   "timers are never deleted (DeleteEpochInfo is not part of the modelled histories); signal_order is stated for timers added un-started, "
                   "grid additionally for any on-grid imported timer (grid_preserved)"],
   "explanation": "per-timer theorems (no tick before start, first tick sets start, <=1 epoch per block, tick iff strictly after the epoch end, grid "
                  "start+(n-1)*dur, signal history = prefix of start1,end1,start2,...) by induction over arbitrary histories (Reach); block-level theorems "
                  "(every subscriber once per signal in registration order, stores = fold of ok writes only, epoch state independent of hook outcomes, "
-                 "out-of-gas propagates and cuts the invocation list) for arbitrary scripts; model tied to the real keeper + MultiEpochHooks + "
+                 "out-of-gas propagates and cuts the invocation list) for arbitrary scripts; state visible to a subscriber INSIDE a signal (start n: the stored timer already is in epoch n, "
+                 "started, on the grid, start height = this block; end n: still epoch n) for every invocation of every block; model tied to the real keeper + MultiEpochHooks + "
                  "ApplyFuncIfNoError by differential run incl. the partial state of panicking blocks.",
  },
  "C15": {
